@@ -15,7 +15,7 @@ CLAIM = {
             '(GetTimeAsStringMS) — floating point / arithmetic identities without a sound static argument in reach. Layout extraction '
             'follows the formatter/parser CFG under each indicator/length value (abstract evaluation of the decision structure; no fix8 '
             'code runs).',
-    'technique': 'interval evaluation of integer expression trees with C++ computation types; formatter/parser layout tables extracted from the CFG',
+    'technique': 'interval evaluation of integer expression trees with C++ computation types; formatter/parser layout tables extracted from the CFG; static-storage state: one-entry cache idioms (first-call substitution, range of the skipped refresh)',
 }
 UNITS = [WITNESS_FIELDS]
 EXPLANATION = (
